@@ -86,8 +86,8 @@ Mutants(t) ==
 (* (forwarding to the port it listens on or to another one), a capturing   *)
 (* receiver; or two machines playing ping-pong; one or two networks.       *)
 (***************************************************************************)
-VARIABLES count, byName, hexPort, msg, twoNets, fwd, swapArgs, arp, diffPorts, kind
-vars == <<count, byName, hexPort, msg, twoNets, fwd, swapArgs, arp, diffPorts, kind>>
+VARIABLES count, byName, hexPort, msg, twoNets, fwd, swapArgs, arp, diffPorts, kind, auto
+vars == <<count, byName, hexPort, msg, twoNets, fwd, swapArgs, arp, diffPorts, kind, auto>>
 RcvIp == "123.45.67.90"
 FwdIp == "123.45.67.91"
 Port == IF hexPort THEN "0xbeef" ELSE "48879"
@@ -95,19 +95,22 @@ Port2 == IF hexPort THEN "0xface" ELSE "64206"
 \* the port the receiver listens on: a forwarder may forward to another port than the one it listens on
 CapPort == IF fwd /\ diffPorts THEN Port2 ELSE Port
 Swap(opts) == IF swapArgs /\ Len(opts) >= 2 THEN <<opts[2], opts[1]>> \o SubSeq(opts, 3, Len(opts)) ELSE opts
-Protos == <<<<<<"name", "IPv4">>>>, <<<<"name", "UDP">>>>>> \o (IF arp THEN <<<<<<"name", "ARP">>>>>> ELSE <<>>)
+\* with auto-protocol='true' a machine names only UDP: the generator adds IPv4 and ARP itself
+Protos == IF auto THEN <<<<<<"name", "UDP">>>>>>
+          ELSE <<<<<<"name", "IPv4">>>>, <<<<"name", "UDP">>>>>> \o (IF arp THEN <<<<<<"name", "ARP">>>>>> ELSE <<>>)
+Auto == IF auto THEN <<<<"auto-protocol", "true">>>> ELSE <<>>
 FirstHop == IF fwd THEN (IF byName THEN "fwd" ELSE FwdIp) ELSE (IF byName THEN "rcv" ELSE RcvIp)
 SendTree ==
   [ nets |-> <<[id |-> "5", ips |-> <<<<<<"range", "123.45.67.89-95">>>>, <<<<"ip", "123.45.70.1">>>>>>]>>
              \o (IF twoNets THEN <<[id |-> "1", ips |-> <<<<<<"range", "12.34.56.89-90">>>>>>]>> ELSE <<>>),
-    machs |-> <<[opts |-> Swap(<<<<"name", "snd">>>> \o (IF count > 0 THEN <<<<"count", ToString(count)>>>> ELSE <<>>)),
+    machs |-> <<[opts |-> Swap(<<<<"name", "snd">>>> \o (IF count > 0 THEN <<<<"count", ToString(count)>>>> ELSE <<>>)) \o Auto,
                  nets |-> <<<<<<"id", "5">>>>>> \o (IF twoNets THEN <<<<<<"id", "1">>>>>> ELSE <<>>),
                  protos |-> Protos,
                  apps |-> <<Swap(<<<<"name", "send_message">>, <<"message", msg>>, <<"to", FirstHop>>, <<"port", Port>>>>)>>]>>
-              \o (IF fwd THEN <<[opts |-> <<<<"name", "fwd">>>>, nets |-> <<<<<<"id", "5">>>>>>, protos |-> Protos,
+              \o (IF fwd THEN <<[opts |-> <<<<"name", "fwd">>>> \o Auto, nets |-> <<<<<<"id", "5">>>>>>, protos |-> Protos,
                                  apps |-> <<<<<<"name", "forward">>, <<"ip", FwdIp>>, <<"to", IF byName THEN "rcv" ELSE RcvIp>>,
                                               <<"local_port", Port>>, <<"remote_port", CapPort>>>>>>]>> ELSE <<>>)
-              \o <<[opts |-> <<<<"name", "rcv">>>>, nets |-> <<<<<<"id", "5">>>>>>, protos |-> Protos,
+              \o <<[opts |-> <<<<"name", "rcv">>>> \o Auto, nets |-> <<<<<<"id", "5">>>>>>, protos |-> Protos,
                     apps |-> <<Swap(<<<<"name", "capture">>, <<"ip", RcvIp>>, <<"port", CapPort>>, <<"type", "count">>,
                                       <<"message_count", ToString(IF count = 0 THEN 1 ELSE count)>>>>)>>]>> ]
 \* two machines playing ping-pong: the starter sends a counter of 255, each side sends it back decremented, the
@@ -117,12 +120,12 @@ PongIp == "123.45.67.90"
 PPTree ==
   [ nets |-> <<[id |-> "5", ips |-> <<<<<<"range", "123.45.67.89-95">>>>, <<<<"ip", "123.45.70.1">>>>>>]>>
              \o (IF twoNets THEN <<[id |-> "1", ips |-> <<<<<<"range", "12.34.56.89-90">>>>>>]>> ELSE <<>>),
-    machs |-> <<[opts |-> <<<<"name", "ping">>>>,
+    machs |-> <<[opts |-> <<<<"name", "ping">>>> \o Auto,
                  nets |-> <<<<<<"id", "5">>>>>> \o (IF twoNets THEN <<<<<<"id", "1">>>>>> ELSE <<>>),
                  protos |-> Protos,
                  apps |-> <<Swap(<<<<"name", "ping_pong">>, <<"starter", "true">>, <<"ip", PingIp>>, <<"to", IF byName THEN "pong" ELSE PongIp>>,
                                    <<"local_port", Port>>, <<"remote_port", Port2>>>>)>>],
-                [opts |-> <<<<"name", "pong">>>>, nets |-> <<<<<<"id", "5">>>>>>, protos |-> Protos,
+                [opts |-> <<<<"name", "pong">>>> \o Auto, nets |-> <<<<<<"id", "5">>>>>>, protos |-> Protos,
                  apps |-> <<Swap(<<<<"name", "ping_pong">>, <<"starter", "false">>, <<"ip", PongIp>>, <<"to", IF byName THEN "ping" ELSE PingIp>>,
                                    <<"local_port", Port2>>, <<"remote_port", Port>>>>)>>]>> ]
 Tree == IF kind = "pp" THEN PPTree ELSE SendTree
@@ -131,7 +134,8 @@ Meaning == IF kind = "pp" THEN [senders |-> 255, exit |-> "Exited", hops |-> 1]
 Msgs == {"Hello!", "a b=c d", "it\\'s", ""}
 Init == /\ count \in 0..3 /\ byName \in BOOLEAN /\ hexPort \in BOOLEAN /\ msg \in Msgs /\ twoNets \in BOOLEAN
         /\ fwd \in BOOLEAN /\ swapArgs \in BOOLEAN /\ arp \in BOOLEAN
-        /\ diffPorts \in BOOLEAN /\ kind \in {"send", "pp"}
+        /\ diffPorts \in BOOLEAN /\ kind \in {"send", "pp"} /\ auto \in BOOLEAN
+        /\ (auto => ~arp)
         /\ (diffPorts => fwd)
         /\ (kind = "pp" => (count = 0 /\ msg = "Hello!" /\ ~fwd))
 Next == UNCHANGED vars
